@@ -314,3 +314,82 @@ func TestConcurrentChains(t *testing.T) { concChainsProp.Check(t) }
 var argOrderProp = h.Define(P, "argorder", chain.DrawArgOrder, func(c *h.Ctx, ac chain.ArgOrderCase) { chain.RunArgOrder(c, ac, "C03") })
 
 func TestArgOrder(t *testing.T) { argOrderProp.Check(t) }
+
+// TestWorkScaling: the TOTAL work of a check (statements x argument size, summed over the links) grown over four
+// orders of magnitude, with one violated statement on the root link - in the shapes a resource limit is most likely
+// to let through (optional first segment, optional slices, quantifiers). However much the other links make the
+// evaluator work, the violated statement still denies; adding the heavy link never turns the denial into an approval.
+func TestWorkScaling(t *testing.T) {
+	ctx := &h.Ctx{P: P, T: t}
+	budget := h.N(40_000_000, 400_000_000)
+	zero, read, minus := val.Int(0), val.Str("read"), val.Int(-1)
+	opt := func(name string) sel.Seg { return sel.Seg{Kind: "field", Name: name, Opt: true} }
+	from0 := int64(0)
+	heavy := []pol.Stmt{
+		{Op: ">=", Sel: sel.Sel{opt("batch"), {Kind: "slice", From: &from0, Opt: true}, {Kind: "index", Idx: 0, Opt: true}}, Lit: &zero},
+		{Op: "all", Sel: sel.Sel{opt("batch")}, Sub: []pol.Stmt{{Op: ">=", Sel: sel.Sel{{Kind: "id"}}, Lit: &zero}}},
+		{Op: ">=", Sel: sel.Sel{{Kind: "field", Name: "batch"}, {Kind: "index", Idx: -1}}, Lit: &zero},
+	}
+	violated := []pol.Stmt{
+		{Op: "==", Sel: sel.Sel{opt("scope")}, Lit: &read},
+		{Op: "==", Sel: sel.Sel{{Kind: "field", Name: "scope"}}, Lit: &read},
+		{Op: "any", Sel: sel.Sel{opt("batch")}, Sub: []pol.Stmt{{Op: "==", Sel: sel.Sel{{Kind: "id"}}, Lit: &minus}}},
+		{Op: "like", Sel: sel.Sel{opt("scope")}, Pat: "re*"},
+	}
+	n := 0
+	for _, m := range []int{16, 4096, 65536} {
+		batch := val.V{K: "list"}
+		for i := 0; i < m; i++ {
+			batch.L = append(batch.L, val.Int(int64(i%7)))
+		}
+		args := []val.KV{{K: "batch", V: batch}, {K: "scope", V: val.Str("write")}}
+		for _, k := range []int{1, 16, 256, 1100, 4096, 16384} {
+			for hi, hs := range heavy {
+				cost := k * m
+				if hi == 2 {
+					cost = k
+				}
+				if cost > budget {
+					continue
+				}
+				var hp pol.Policy
+				for i := 0; i < k; i++ {
+					hp = append(hp, hs)
+				}
+				for vi, vs := range violated {
+					for _, heavyAt := range []int{0, 1} { // the heavy link nearer the invoker, or the root itself carries both
+						cs := chain.Case{Links: []chain.Link{{Iss: 1, Aud: 2, Sub: 0, Cmd: "/", Nonce: 1}, {Iss: 0, Aud: 1, Sub: 0, Cmd: "/", Nonce: 2}},
+							Inv: chain.Inv{Iss: 2, Sub: 0, Aud: -1, Cmd: "/x", NonceLen: 12, Args: args}}
+						cs.Links[1].Pol = pol.Policy{vs}
+						if heavyAt == 0 {
+							cs.Links[0].Pol = hp
+						} else {
+							cs.Links[1].Pol = append(append(pol.Policy{}, hp...), vs)
+						}
+						b, err := chain.Build(cs)
+						if err != nil {
+							P.Class("scaling:build-error")
+							continue
+						}
+						n++
+						for _, hook := range []bool{false, true} {
+							var d chain.Decision
+							if hook {
+								d = chain.DecideIdentityHook(b)
+							} else {
+								d = chain.Decide(b, nil)
+							}
+							if d.Allowed {
+								ctx.Fail("C03/scaling/unsatisfied-policy-allowed", "the root link's statement %d (%s) is violated by the arguments (scope = \"write\", no -1 in batch), yet the invocation is allowed (hook=%v) when %d heavy statements (shape %d) over a %d-element list stand on link %d; with one such statement it is denied", vi, vs.Op, hook, k, hi, m, heavyAt)
+								return
+							}
+						}
+					}
+				}
+			}
+		}
+	}
+	P.EvalN(n)
+	P.AddDistinct(n)
+	P.SetExtra("work_scaling_cases", n)
+}
